@@ -242,10 +242,16 @@ func runSchemaCase(c *SCase) SObs {
 	}
 	openapi3.SchemaErrorDetailsDisabled = false
 	inSchema := schemaStrings(c.Schema)
+	var allSchema strings.Builder
+	for k := range inSchema {
+		allSchema.WriteString(k)
+		allSchema.WriteString("\x00")
+	}
 	leaks := map[string]bool{}
 	walkJSON(val, func(x any) {
 		str, ok := x.(string)
-		if !ok || len(str) < 3 || inSchema[str] {
+		// a leaf that already occurs in the schema (also as part of a schema string) is not a disclosure
+		if !ok || len(str) < 3 || strings.Contains(allSchema.String(), str) {
 			return
 		}
 		for _, rs := range o.Reasons {
@@ -361,6 +367,22 @@ func sDirected() []SCase {
 	n2 := T("number")
 	n2.Min, n2.Max, n2.ExMin, n2.ExMax = fp(1), fp(3), true, true
 	add(n2, 1.0, 1.0000000000000002, 2.0, 3.0, 2.9999999999999996)
+	n5 := T("number")
+	n5.Max, n5.ExMax = fp(3), true
+	add(n5, 3.0, 2.0, 4.0)
+	n6 := T("number")
+	n6.Min, n6.ExMin, n6.Max = fp(1), true, fp(3)
+	add(n6, 3.0, 1.0, 2.0)
+	n7 := T("number")
+	n7.Min, n7.Max, n7.ExMax = fp(1), fp(3), true
+	add(n7, 3.0, 1.0)
+	pc := T("object")
+	pc.MinProps = 1
+	add(pc, map[string]any{"a": nil}, map[string]any{})
+	pc2 := T("object")
+	pc2.MaxProps = up(1)
+	add(pc2, map[string]any{"a": 1.0, "b": nil}, map[string]any{"a": nil})
+	add(&GSchema{OneOf: []*GSchema{T("integer"), {HasTypes: true, Types: []string{"number"}, Min: fp(0)}}}, 5.0, -3.0, 0.5)
 	n3 := T("integer")
 	n3.Mult = fp(3)
 	add(n3, 0.0, 3.0, 4.0, -6.0, 4.5, 1e300)
@@ -473,7 +495,7 @@ func schemaRunner(prop string, gopts SchemaGenOpts, rule string, post func(c *SC
 		var terms []string
 		for i := range cases {
 			c := &cases[i]
-			if prop == "C19" {
+			if prop == "C19" && i%4 != 3 { // every fourth case keeps its (format-shaped) leaves
 				plantMarkers(c, i)
 			}
 			o := runSchemaCase(c)
